@@ -24,6 +24,22 @@ pub fn result_image(res: &cooklang::RecipeResult) -> String {
     format!("{out:?}\n{diags:?}")
 }
 
+/// the metadata-only entry point must read the same entries as the full parse (ordered comparison)
+fn meta_only_agrees(idx: usize, src: &str, res: &cooklang::RecipeResult, sig: &str) -> Verdict {
+    let meta = match guard(|| parser(idx, 1).parse_metadata(src)) {
+        Ok(m) => m,
+        Err(p) => vbail!("c02.panic", "parse_metadata panicked under {}: {p}; source {src:?}", ext_name(idx)),
+    };
+    if let (Some(f), Some(m)) = (res.output(), meta.output()) {
+        let fe: Vec<_> = f.metadata.map.iter().collect();
+        let me: Vec<_> = m.map.iter().collect();
+        vensure!(fe == me, sig.to_string(), "under {} the metadata-only parse reads {:?} but the full parse reads {:?}; source {src:?}", ext_name(idx), m.map, f.metadata.map);
+    } else {
+        vensure!(meta.output().is_some(), sig.to_string(), "under {} the metadata-only parse of a core recipe gives no output: {:?}; source {src:?}", ext_name(idx), meta.report().iter().map(|d| d.message.to_string()).collect::<Vec<_>>());
+    }
+    Ok(())
+}
+
 fn check_core_everywhere(raw: &RawRecipe, st: &mut Stats) -> Verdict {
     let m = build(raw, false);
     assert_eq!(m.level, Level::Core);
@@ -62,6 +78,7 @@ fn check_core_everywhere(raw: &RawRecipe, st: &mut Stats) -> Verdict {
             "core-syntax recipe gives errors {errors:?} under {}; source {src:?}",
             ext_name(idx)
         );
+        meta_only_agrees(idx, &src, &res, "c02.metadata-only-differs")?;
         if idx != EXT_EMPTY {
             let img = result_image(&res);
             vensure!(
@@ -235,6 +252,7 @@ fn check_converse(c: &ConverseCase, st: &mut Stats) -> Verdict {
             SAMPLES[sample as usize].1,
             ext_name(idx)
         );
+        meta_only_agrees(idx, &src, &res, &format!("c02.converse-metadata-only-differs.{}", SAMPLES[sample as usize].0))?;
         let actual = actual_image(res.output().unwrap()).map_err(|e| Violation::new("c02.image", e))?;
         if let Some((what, d)) = diff(expected, &actual) {
             vbail!(
@@ -270,7 +288,7 @@ pub fn run(tier: Tier) -> i32 {
         run_prop(
             &mut run,
             "core-192",
-            "generated Core-level recipe, random spelling, parsed under all 192 distinct extension subsets: no error, JSON image of the output and the ordered diagnostics (severity, stage, message, labels, hints) equal to those without extensions, and the no-extension output equals the reference model; non-trivial = at least 2 kinds of components; distinct = distinct source",
+            "generated Core-level recipe, random spelling, parsed under all 192 distinct extension subsets: no error, JSON image of the output and the ordered diagnostics (severity, stage, message, labels, hints) equal to those without extensions, the metadata-only parse reads the same entries under every subset, and the no-extension output equals the reference model; non-trivial = at least 2 kinds of components; distinct = distinct source",
             || raw_recipe(Some(false)),
             tier.pick(1_500, 100_000),
             check_core_everywhere,
@@ -280,7 +298,7 @@ pub fn run(tier: Tier) -> i32 {
         run_prop(
             &mut run,
             "converse",
-            "one documented special syntax (alias pipe, range, unit without %, bracketed mode key, number+unit in text, timer without duration, modifier character, `&(n)` with intermediate preparations off but modifiers on or off) placed in a generated Core recipe; parsed under every subset lacking that extension; must equal the core reading computed by the reference resolver; every case is non-trivial",
+            "one documented special syntax (alias pipe, range, unit without %, bracketed mode key, number+unit in text, timer without duration, modifier character, `&(n)` with intermediate preparations off but modifiers on or off) placed in a generated Core recipe; parsed under every subset lacking that extension; must equal the core reading computed by the reference resolver, and the metadata-only parse must read the same entries as the full parse; every case is non-trivial",
             converse_strategy,
             tier.pick(2_500, 150_000),
             check_converse,
